@@ -27,6 +27,7 @@ import (
 	"Havoc/pkg/packager"
 	"Havoc/pkg/profile"
 	"Havoc/pkg/service"
+	"Havoc/pkg/webhook"
 
 	"github.com/gin-gonic/gin"
 
@@ -97,6 +98,9 @@ func New(o Options) *TS {
 		Demon:     &profile.Demon{Sleep: 2, Jitter: 15, TrustXForwardedFor: o.TrustXFF},
 	}}
 	t.Flags.Server.SendLogs = o.SendLogs
+	// Start() always creates the webhook object (without a Discord URL it posts nothing):
+	// AgentAdd then serialises every new session with ToMap, as in the running server
+	t.WebHooks = webhook.NewWebHook()
 	t.Server.Engine = gin.New()
 	t.Listeners = []*server.Listener{}
 	if o.Service {
